@@ -191,7 +191,7 @@ theorem substr_spec (s : Bytes) (left len : Int) (hs : (s.length : Int) ≤ maxI
 /-- The call: any mixture of constants and groups; no argument value makes it panic. -/
 theorem substr_call_spec (c : Ctx) (a l n : Arg) (hs : ((a.val c).length : Int) ≤ maxInt64) :
     ∃ r, callHelper Strings.kfSubstr [a, l, n] c = .ok r := by
-  rw [substr_call]
+  rw [substr_call c a l n hs]
   by_cases he : (a.val c).isEmpty = true
   · exact ⟨[], by simp [he]⟩
   · rw [if_neg he]
@@ -254,28 +254,30 @@ example : Strings.selectField (Spec.joinWords [ascii "ab", ascii "c", ascii "def
 /-! ## lookup / haskey -/
 
 /-- The table builder is a function of the lines alone: every non-comment line with one or two
-    fields contributes one entry, in order (so the model's table is this association list). -/
+    fields contributes one entry, in order (so the model's table is this association list).
+    Lines are those `bufio.Scanner` delivers (a line of 64 KiB or more ends the scan), fields those
+    of `strings.Fields` (ASCII and Unicode white space). -/
 theorem lookup_table_spec (content commentPrefix : Bytes) :
     Misc.buildLookupTable content commentPrefix =
-      (((Misc.splitLinesGo content []).map Misc.dropCR).filterMap (lineEntry commentPrefix)) := by
+      (((Misc.splitLinesGo content [] 0).map Misc.dropCR).filterMap (lineEntry commentPrefix)) := by
   unfold Misc.buildLookupTable
   rw [table_eq_filterMap]; rfl
 
 /-- `{lookup key table}`: later lines win — an entry for `key` followed by no other entry for `key`
     is the answer; and the call returns the value (or "" when the key is absent). -/
-theorem lookup_spec (c : Ctx) (key : Arg) (content : Bytes) (hm : Misc.lookupModelled content = true) :
+theorem lookup_spec (c : Ctx) (key : Arg) (content : Bytes) :
     callHelper Misc.kfLookupKey [key, .const content] c =
       .ok ((Misc.tableGet (Misc.buildLookupTable content []) (key.val c)).getD []) ∧
     ∀ (pre post : List (Bytes × Bytes)) (k v : Bytes), (∀ e ∈ post, e.1 ≠ k) →
       Misc.tableGet (pre ++ [(k, v)] ++ post) k = some v :=
-  ⟨lookup_call c _ key content hm, tableGet_hit⟩
+  ⟨lookup_call c _ key content, tableGet_hit⟩
 
 /-- `{haskey key table}` is truthy iff some line of the table has an entry for the key. -/
-theorem haskey_spec (c : Ctx) (key : Arg) (content : Bytes) (hm : Misc.lookupModelled content = true) :
+theorem haskey_spec (c : Ctx) (key : Arg) (content : Bytes) :
     callHelper Misc.kfHasKey [key, .const content] c =
       .ok (truthyStr (Misc.tableGet (Misc.buildLookupTable content []) (key.val c)).isSome) ∧
     ∀ (tbl : List (Bytes × Bytes)) (k : Bytes), (Misc.tableGet tbl k).isSome = true ↔ ∃ e ∈ tbl, e.1 = k := by
-  refine ⟨lookup_call c _ key content hm, ?_⟩
+  refine ⟨lookup_call c _ key content, ?_⟩
   intro tbl k
   have := tableGet_none_iff tbl k
   constructor
